@@ -2,6 +2,7 @@
 import storecheck
 
 PLAN = {
+    "api": True,
     "mc": [("StoreMC_acct.cfg", False), ("StoreMC_exp_small.cfg", False), ("StoreMC_exp.cfg", True)],
     "sims": [("StoreSim_acct.cfg", 250, 2000, 61), ("StoreSim_delta.cfg", 1500, 8000, 46)],
     "drivers": [("TestVerif_StoreFree", 6, 40, "store_free.ndjson", None), ("TestVerif_StoreStall", 10, 80, "store_stall.ndjson", None)],
